@@ -4,14 +4,15 @@ import itertools
 # ---- node positions (y, x)
 GRID = [(0.0, 0.0), (0.0, 2.0), (2.0, 0.0), (2.0, 2.0), (1.0, 4.0)]
 GENERIC = [(0.03, 0.01), (0.11, 2.07), (2.05, 0.13), (1.93, 2.21), (1.07, 4.03)]
-POS = {"GRID": GRID, "GENERIC": GENERIC}
+ZERO = [(0.0, 0.0), (0.0, 2.0), (0.0, 0.0)]       # node 2 co-located with node 0: zero-length roads 0<->2
+POS = {"GRID": GRID, "GENERIC": GENERIC, "ZERO": ZERO}
 
 # ---- observation alphabets
 # GRID: on a node, on an edge interior, beside an edge, inside the square, outlier beyond max_dist, between node 1 and 3
 OBS_GRID = [(0.0, 0.0), (0.0, 1.0), (1.0, 1.0), (1.0, 3.0), (3.0, 1.0), (0.5, 2.0)]
 OBS_GENERIC = [(0.17, 0.12), (0.21, 1.34), (1.21, 0.9), (1.12, 2.87), (3.1, 1.2), (0.6, 2.13)]
-OBS = {"GRID": OBS_GRID, "GENERIC": OBS_GENERIC}
-FAR = {"GRID": (9.0, 9.0), "GENERIC": (9.13, 8.91)}
+OBS = {"GRID": OBS_GRID, "GENERIC": OBS_GENERIC, "ZERO": OBS_GRID}
+FAR = {"GRID": (9.0, 9.0), "GENERIC": (9.13, 8.91), "ZERO": (9.0, 9.0)}
 
 
 def pairs(n):
